@@ -153,7 +153,7 @@ fn check_cfg(g: &G, dfs: bool, threads: usize, forest: bool, keep_going: bool, s
 }
 
 fn analyse<C: Checker<G>>(g: &G, c: C, visited: Arc<Mutex<Vec<Vec<(usize, Option<usize>)>>>>, tag: String, forest: bool, keep_going: bool, sym: bool) {
-    if !c.is_done() { fail(format!("is_done false after join {}", tag)); }
+    if !sym && !c.is_done() { fail(format!("is_done false after join {}", tag)); }
     let reach = g.reachable();
     let valid_path = |p: &Vec<(usize, Option<usize>)>, what: &str| {
         if p.is_empty() { fail(format!("{}: empty path {}", what, tag)); }
@@ -284,6 +284,31 @@ fn verif_checker_oracle() {
                 check_sym(g, true, 1, *forest, *keep, true);
                 check_sym(g, true, 2, *forest, *keep, true);
             }
+        }
+    }
+}
+
+// ---- on-demand checker run to completion: validity of what it reports (its join() cannot be used: it never returns) ----
+#[test]
+fn verif_on_demand_oracle() {
+    let mut models: Vec<G> = fixed_models();
+    let mut r = Lcg(0x0dd_5eed);
+    for i in 0..100 { models.push(random_graph(&mut r, i % 2 == 0)); models.push(random_forest(&mut r, i % 2 == 0)); }
+    for g in &models {
+        for threads in 1..=2 {
+            let tag = format!("[on_demand threads={} model={:?}]", threads, g);
+            let visited: Arc<Mutex<Vec<Vec<(usize, Option<usize>)>>>> = Arc::new(Mutex::new(Vec::new()));
+            let c = g.clone().checker().threads(threads).spawn_on_demand();
+            c.run_to_completion();
+            // small models are explored within a few milliseconds; wait until the counters stand still
+            let mut last = usize::MAX;
+            for _ in 0..200 {
+                std::thread::sleep(std::time::Duration::from_millis(5));
+                let now = c.state_count() + c.unique_state_count();
+                if now == last { break; }
+                last = now;
+            }
+            analyse(g, c, visited, tag, false, false, true);
         }
     }
 }
